@@ -534,6 +534,43 @@ def check_cachekey(ck, prog):
                             if r is not None and ex.is_const(r, 0):
                                 continue
                             bad = node
+            # ... and after `free(P); P = alloc()` FAILED the old key no longer describes anything: it must be invalidated
+            # (a constant stored to K between the free and the failing return), otherwise a later request for the OLD
+            # size finds K == wanted, skips the allocation and uses P == NULL.
+            null_tb = None
+            for tb in f.blocks.values():
+                if tb.term and "cond" in tb.term and len(tb.succs) == 2:
+                    cc = ex.strip(tb.term["cond"])
+                    if cc.get("k") == "bin" and cc["op"] in ("==", "!=") and ex.same(cc["l"], P[0]) and ex.is_const(cc["r"], 0):
+                        null_tb = tb
+                        fail_edge = tb.succs[0] if cc["op"] == "==" else tb.succs[1]
+            inval = set()
+            for x in region:
+                for e in f.blocks[x].elems:
+                    if e is None:
+                        continue
+                    for (l, r, op, node) in ex.writes(e):
+                        if ex.same(l, K) and r is not None and ex.const_val(r) is not None:
+                            inval.add(x)
+            stale = None
+            if null_tb is not None and fail_edge is not None and not (inval & set(doms.get(null_tb.id, ()))):
+                seen, st = set(), [fail_edge]
+                while st:
+                    x = st.pop()
+                    if x in seen or x in inval:
+                        continue
+                    seen.add(x)
+                    if x == f.exit:
+                        stale = null_tb
+                        break
+                    st.extend(y for y in f.blocks[x].succs if y is not None)
+            ck.ob("C10-CACHEKEY", "%s:%s:fail-path" % (f.name, ex.show(K)), stale is None, common.where(f, null_tb.term["cond"] if null_tb else None),
+                  "%s: when the allocation of %s fails, %s is invalidated before the function returns" % (
+                      f.name, ex.show(P[0]), ex.show(K)) if stale is None else
+                  "%s(): %s has been freed and its re-allocation failed, but the function returns with %s still holding "
+                  "the OLD size: the next call that asks for that size finds `%s` false, skips the allocation and uses "
+                  "%s == NULL" % (f.name, ex.show(P[0]), ex.show(K), ex.show(t["cond"]), ex.show(P[0])),
+                  key="CACHEKEY:%s:%s:fail-path" % (f.name, ex.show(K)))
             ck.ob("C10-CACHEKEY", "%s:%s" % (f.name, ex.show(K)), bad is None, common.where(f, t["cond"]),
                   "%s: %s is compared to decide whether %s is reused; it is updated only after %s != NULL" % (
                       f.name, ex.show(K), ex.show(P[0]), ex.show(P[0])) if bad is None else
@@ -542,6 +579,189 @@ def check_cachekey(ck, prog):
                   "NULL buffer" % (f.name, ex.show(K), ex.show(P[0]), ex.line(bad), ex.show(P[0])),
                   key="CACHEKEY:%s:%s" % (f.name, ex.show(K)))
     ck.floor("C10-CACHEKEY", 1)
+
+
+SIZEKEY_EXCEPT = {
+    # (buffer member, size member, storing function): reason
+}
+
+
+def _top_mems(n):
+    """Member accesses in n that are values (not the base of another member access / subscript)."""
+    bases = set()
+    for x in ex.walk(n):
+        if x.get("k") in ("mem", "idx"):
+            b = ex.strip(x.get("b"))
+            if b is not None:
+                bases.add(id(b))
+    return [x for x in ex.walk(n) if x.get("k") == "mem" and id(x) not in bases]
+
+
+def check_sizekey(ck, prog):
+    """A buffer member P allocated with a size taken from a member M (`thr->in = lzma_alloc(coder->block_size)`) is used
+    later with M as its bound.  Whenever M is stored to while P may be kept, P has to be re-established: on every path
+    to the store the buffer was released (a call that frees P), or is known to be NULL, or the store is behind the
+    equality test `M == new value`; or on every path from the store to the return P is freed / re-allocated, or an
+    `old == M` test (old sampled from M before the store) guards keeping it.  Otherwise a re-initialisation with a larger
+    size keeps the smaller buffer and the next copy bounded by M overflows it."""
+    ck.rule("C10-SIZEKEY", "a member that gives the allocated size of a kept buffer changes only together with the buffer")
+    cg = common.callgraph(prog)
+    fns = [f for f in prog.all_functions("liblzma") if f.blocks]
+    # pairs
+    pairs = {}
+    for f in fns:
+        for b, i, e in f.iter_elems():
+            for (l, r, op, node) in ex.writes(e):
+                if r is None or ex.strip(l) is None or ex.strip(l).get("k") != "mem":
+                    continue
+                for c in ex.calls(r):
+                    if c.get("fn") in ("lzma_alloc", "lzma_alloc_zero") and c["args"]:
+                        for mnode in _top_mems(c["args"][0]):
+                            P = ex.field_key(l)
+                            M = (mnode.get("rec"), mnode["f"])
+                            pairs.setdefault((P, M), []).append((f, b.id, node))
+    # functions that (transitively, through direct calls) free a member
+    def freeing(P):
+        base = set()
+        for f in fns:
+            for b, i, e in f.iter_elems():
+                for c in ex.calls(e, into_refs=False):
+                    if c.get("fn") == "lzma_free" and c["args"] and ex.field_key(c["args"][0]) == P:
+                        base.add(f.name)
+        out = set(base)
+        changed = True
+        while changed:
+            changed = False
+            for f in fns:
+                if f.name not in out and (set(cg.direct.get(f.key, ())) & out):
+                    out.add(f.name)
+                    changed = True
+        return out
+    n = 0
+    for (P, M), sites in sorted(pairs.items(), key=lambda kv: str(kv[0])):
+        stores = []
+        for f in fns:
+            for b, i, e in f.iter_elems():
+                for (l, r, op, node) in ex.writes(e):
+                    if ex.field_key(l) == M and ex.deref(node).get("k") != "decl":
+                        if op == "=" and r is not None and ex.const_val(r) is not None:
+                            continue        # constant: "nothing allocated"
+                        stores.append((f, b, i, l, r, op, node))
+        if not stores:
+            continue
+        FR = freeing(P)
+        holders = {(rn, fd_["n"]) for rn, rec in prog.records.items() for fd_ in rec["fields"] if fd_.get("prec") == P[0]}
+        for (f, b, i, l, r, op, node) in stores:
+            n += 1
+            ck.saw_function(f)
+            def p_is(x):
+                return ex.field_key(x) == P
+            cutb = set()       # blocks that release / re-establish / null P
+            for bb, ii, ee in f.iter_elems():
+                for c in ex.calls(ee, into_refs=False):
+                    if (c.get("fn") == "lzma_free" and c["args"] and p_is(c["args"][0])) or c.get("fn") in FR:
+                        cutb.add(bb.id)
+                for (l2, r2, op2, n2) in ex.writes(ee):
+                    if p_is(l2):
+                        cutb.add(bb.id)
+                    # the array of records that hold P is allocated anew: the new elements have no buffer yet
+                    fk2 = ex.field_key(l2)
+                    if fk2 and r2 is not None and (fk2 in holders) and \
+                            any(c.get("fn") in ("lzma_alloc", "lzma_alloc_zero") for c in ex.calls(r2)):
+                        cutb.add(bb.id)
+            # locals sampled from M
+            olds = set()
+            for bb, ii, ee in f.iter_elems():
+                e_ = ex.deref(ee)
+                if e_.get("k") == "decl" and e_.get("init") is not None and ex.field_key(e_["init"]) == M:
+                    olds.add(e_["n"])
+            cut_edges = set()
+            for tb in f.blocks.values():
+                if not (tb.term and "cond" in tb.term and len(tb.succs) == 2):
+                    continue
+                c = ex.strip(tb.term["cond"])
+                neg = False
+                while c is not None and c.get("k") == "un" and c["op"] == "!":
+                    neg = not neg
+                    c = ex.strip(c["e"])
+                if c is None:
+                    continue
+                T, F = 0, 1
+                if c.get("k") == "bin" and c["op"] in ("==", "!="):
+                    a, d = ex.strip(c["l"]), ex.strip(c["r"])
+                    eq_idx = (T if c["op"] == "==" else F)
+                    if neg:
+                        eq_idx = 1 - eq_idx
+                    sides = (a, d)
+                    is_m = [ex.field_key(x) == M for x in sides]
+                    if any(is_m):
+                        o = sides[1] if is_m[0] else sides[0]
+                        if (r is not None and ex.same(o, r)) or (o is not None and o.get("k") == "var" and o["n"] in olds):
+                            cut_edges.add((tb.id, eq_idx))
+                    # P == NULL
+                    if (p_is(a) and ex.is_const(d, 0)) or (p_is(d) and ex.is_const(a, 0)):
+                        cut_edges.add((tb.id, eq_idx))
+                elif p_is(c):
+                    cut_edges.add((tb.id, T if neg else F))       # if (P) ... : the false edge means P == NULL
+
+            def search(starts, goal, forward=True):
+                seen, st = set(), list(starts)
+                while st:
+                    x = st.pop()
+                    if x in seen:
+                        continue
+                    seen.add(x)
+                    if x == goal:
+                        return True
+                    if x in cutb and x != b.id:
+                        continue
+                    blk = f.blocks[x]
+                    for idx, y in enumerate(blk.succs):
+                        if y is None or (x, idx) in cut_edges:
+                            continue
+                        st.append(y)
+                return False
+            # (pre) entry -> store without release / equality
+            pre_open = search([f.entry], b.id) if b.id not in cutb or True else False
+            if b.id in cutb:
+                # release and store in the same block: order decides
+                rel_first = False
+                for j, ee in enumerate(b.elems):
+                    if ee is None:
+                        continue
+                    if j < i and (any((c.get("fn") == "lzma_free" and c["args"] and p_is(c["args"][0])) or c.get("fn") in FR
+                                      for c in ex.calls(ee, into_refs=False)) or any(p_is(l2) for (l2, r2, o2, n2) in ex.writes(ee))):
+                        rel_first = True
+                if rel_first:
+                    pre_open = False
+            # (post) store -> exit without release / equality
+            post_open = True
+            later = False
+            for j in range(i + 1, len(b.elems)):
+                ee = b.elems[j]
+                if ee is None:
+                    continue
+                if any((c.get("fn") == "lzma_free" and c["args"] and p_is(c["args"][0])) or c.get("fn") in FR
+                       for c in ex.calls(ee, into_refs=False)) or any(p_is(l2) for (l2, r2, o2, n2) in ex.writes(ee)):
+                    later = True
+            if later:
+                post_open = False
+            else:
+                starts = [y for idx, y in enumerate(b.succs) if y is not None and (b.id, idx) not in cut_edges]
+                post_open = search(starts, f.exit)
+            exc = SIZEKEY_EXCEPT.get((P[1], M[1], f.name))
+            ok = exc is not None or not pre_open or not post_open
+            ck.ob("C10-SIZEKEY", "%s:%s:%s" % (f.name, P[1], M[1]), ok, common.where(f, node),
+                  ("%s: `%s` changes only %s" % (f.name, ex.show(node)[:60],
+                                                 "after the buffer was released / behind an equality test" if not pre_open
+                                                 else "followed by a release, re-allocation or old-value test of the buffer")
+                   if exc is None else "exception: " + exc) if ok else
+                  "%s(): `%s` (line %s) changes the size that member '%s' was allocated with (%s(): `%s`), on a path where "
+                  "the buffer is neither released nor known to be NULL nor the new size tested equal: a kept buffer of the "
+                  "old size is then used with the new bound (overflow when the size grows)" % (
+                      f.name, ex.show(node)[:70], ex.line(node), P[1], sites[0][0].name, ex.show(sites[0][2])[:70]),
+                  key="SIZEKEY:%s:%s:%s" % (f.name, P[1], M[1]))
+    ck.floor("C10-SIZEKEY", 6)
 
 
 # (function, file, producer call, releasing/transferring calls, which exits must be covered, why)
@@ -625,4 +845,5 @@ def run(ck):
     check_strong(ck, prog)
     check_initord(ck, prog)
     check_cachekey(ck, prog)
+    check_sizekey(ck, prog)
     check_localown(ck, prog)
